@@ -12,8 +12,8 @@ other field of the model state:
 * **API layer** (`History`, `holds`): what the correspondence harness and a client of the gateway
   see — API calls one at a time, with their instant, their headers and (for `Allowed` / a limiter
   call) the verdict.  Which ancestors an arrival reaches is reconstructed by the fixed-window rule
-  itself ("the first `max` arrivals of a window are charged and passed on to the parent"); the
-  verdicts are taken from the history.  This is the predicate the judge evaluates on the
+  itself ("an arrival is charged to a quota whose current window has room and passed on to the parent;
+  if a quota further up has no room the charges are given back"); the verdicts are taken from the history.  This is the predicate the judge evaluates on the
   implementation's answers.
 -/
 namespace LunarVerif.C01
@@ -40,6 +40,11 @@ def admitWin : List Win → List Win
   | [] => []
   | w :: ws => { w with admitted := w.admitted + 1 } :: ws
 
+/-- A charge given back: the current window counts one arrival less. -/
+def refundWin : List Win → List Win
+  | [] => []
+  | w :: ws => { w with charged := w.charged - 1 } :: ws
+
 /-! ### Level layer -/
 
 /-- Does a level event concern level `k`? -/
@@ -47,11 +52,13 @@ def LEv.at (k : Key) : LEv → Bool
   | .inc k' _ _ _ => k' == k
   | .allowed k' _ _ => k' == k
   | .dec k' _ => k' == k
+  | .refund k' _ _ => k' == k
   | .verdict _ _ _ _ => false
 
 def tallyStep (win : Nat) (ws : List Win) : LEv → List Win
   | .inc _ _ t .increased => chargeWin win t ws
   | .allowed _ _ true => admitWin ws
+  | .refund _ _ true => refundWin ws
   | _ => ws
 
 /-- Windows of level `k` (newest first) reconstructed from a level log given most recent first. -/
@@ -95,13 +102,16 @@ def curAdmitted (win t : Nat) : List Win → Nat
   | w :: _ => if outside win w.start t then 0 else w.admitted
 
 /-- An arrival walks up the chain: at each level it is charged if the current window has room and only
-    then passed on to the parent. -/
-def sInc (ss : SSt) : List (QId × QuotaCfg) → Nat → Hdrs → SSt
-  | [], _, _ => ss
+    then passed on to the parent; when a quota further up has no room the charge is given back.  The
+    flag says whether the arrival ended up charged to the whole chain. -/
+def sInc (ss : SSt) : List (QId × QuotaCfg) → Nat → Hdrs → SSt × Bool
+  | [], _, _ => (ss, true)
   | (a, c) :: rest, t, h =>
     let k := (a, groupOf c h)
-    if c.max < curCharged c.win t (ss.at k) + 1 then ss
-    else sInc (ss.set k (chargeWin c.win t (ss.at k))) rest t h
+    if c.max < curCharged c.win t (ss.at k) + 1 then (ss, false)
+    else
+      let up := sInc (ss.set k (chargeWin c.win t (ss.at k))) rest t h
+      if up.2 then (up.1, true) else (up.1.set k (refundWin (up.1.at k)), false)
 
 /-- A request let through counts in the current window of every level of its chain. -/
 def sAdmit (ss : SSt) : List (QId × QuotaCfg) → Hdrs → SSt
@@ -112,9 +122,9 @@ def sAdmit (ss : SSt) : List (QId × QuotaCfg) → Hdrs → SSt
 
 def sStep (cfg : Cfg) (ss : SSt) (o : Obs) : SSt :=
   match o.op.kind, o.ans with
-  | .inc, _ => sInc ss (chain cfg o.op.q) o.op.t o.op.h
-  | .req, some true => sAdmit (sInc ss (chain cfg o.op.q) o.op.t o.op.h) (chain cfg o.op.q) o.op.h
-  | .req, _ => sInc ss (chain cfg o.op.q) o.op.t o.op.h
+  | .inc, _ => (sInc ss (chain cfg o.op.q) o.op.t o.op.h).1
+  | .req, some true => sAdmit (sInc ss (chain cfg o.op.q) o.op.t o.op.h).1 (chain cfg o.op.q) o.op.h
+  | .req, _ => (sInc ss (chain cfg o.op.q) o.op.t o.op.h).1
   | .allowed, some true => sAdmit ss (chain cfg o.op.q) o.op.h
   | _, _ => ss
 
@@ -158,10 +168,6 @@ def spacedHolds (cfg : Cfg) (h : History) : Bool :=
 def fullAdmitted (ss : SSt) (ch : List (QId × QuotaCfg)) (t : Nat) (h : Hdrs) : Bool :=
   ch.any fun (a, c) => decide (c.max ≤ curAdmitted c.win t (ss.at (a, groupOf c h)))
 
-/-- Some quota of the chain has already been charged `max` arrivals in its current window. -/
-def fullCharged (ss : SSt) (ch : List (QId × QuotaCfg)) (t : Nat) (h : Hdrs) : Bool :=
-  ch.any fun (a, c) => decide (c.max ≤ curCharged c.win t (ss.at (a, groupOf c h)))
-
 /-- (iii) Exactness along a history: every refused limiter call meets `full` in the state before it. -/
 def exactFrom (cfg : Cfg) (full : SSt → List (QId × QuotaCfg) → Nat → Hdrs → Bool) : SSt → History → Bool
   | _, [] => true
@@ -174,10 +180,6 @@ def exactFrom (cfg : Cfg) (full : SSt → List (QId × QuotaCfg) → Nat → Hdr
 def exactStrict (cfg : Cfg) (h : History) : Bool :=
   !sequential h || exactFrom cfg fullAdmitted SSt.init h
 
-/-- Weak reading: refused ⇒ some quota of the chain was charged `max` arrivals already. -/
-def exactCharged (cfg : Cfg) (h : History) : Bool :=
-  !sequential h || exactFrom cfg fullCharged SSt.init h
-
 /-- Every limiter call and every `Allowed` got a verdict. -/
 def answered (h : History) : Bool :=
   h.all fun o => match o.op.kind with
@@ -188,13 +190,6 @@ def answered (h : History) : Bool :=
     Histories in which a request id arrives twice are outside the reconstruction and are not judged. -/
 def holds (cfg : Cfg) (h : History) : Bool :=
   !(regular h && monotone h) || (boundHolds cfg h && spacedHolds cfg h && exactStrict cfg h)
-
-/-- Finding F01a: a child quota is charged for requests an ancestor refuses, so later a request is
-    refused although no quota of its chain has let `max` through — while some quota has been
-    *charged* `max`.  This is the class excluded from `holds_partial`. -/
-def f01a (cfg : Cfg) (h : History) : Bool :=
-  regular h && monotone h && sequential h && !exactFrom cfg fullAdmitted SSt.init h
-    && exactFrom cfg fullCharged SSt.init h
 
 /-- The observable history of a run of the model: every call paired with the model's answer. -/
 def observe (cfg : Cfg) : St → List Op → History
